@@ -191,6 +191,8 @@ theorem iterFrom_local : ∀ (n : Nat) (t : Table) (i : Nat), (t.iterFrom i n).l
   | 0, _, _ => rfl
   | n + 1, t, i => by rw [iterFrom_succ, iterFrom_local n, record_local]; rfl
 
+theorem bump_local (t : Table) : t.bump.localKey = t.localKey := rfl
+
 theorem step_local (t : Table) (op : Op) : (t.step op).1.localKey = t.localKey := by
   cases op with
   | insert key value st =>
@@ -199,14 +201,14 @@ theorem step_local (t : Table) (op : Op) : (t.step op).1.localKey = t.localKey :
     | some it1 =>
       obtain ⟨i, t1⟩ := it1
       simp only [Table.step, ha]
-      cases (t1.bucket i).entryKind key <;> simp only <;> exact access_local ha
+      cases (t1.bucket i).entryKind key <;> simp only <;> exact (access_local ha : t1.localKey = t.localKey)
   | update key st =>
     cases ha : t.access key with
     | none => simp only [Table.step, ha]; rfl
     | some it1 =>
       obtain ⟨i, t1⟩ := it1
       simp only [Table.step, ha]
-      cases (t1.bucket i).entryKind key <;> simp only <;> exact access_local ha
+      cases (t1.bucket i).entryKind key <;> simp only <;> exact (access_local ha : t1.localKey = t.localKey)
   | remove key =>
     cases ha : t.access key with
     | none => simp only [Table.step, ha]; rfl
@@ -214,25 +216,27 @@ theorem step_local (t : Table) (op : Op) : (t.step op).1.localKey = t.localKey :
       obtain ⟨i, t1⟩ := it1
       simp only [Table.step, ha]
       cases (t1.bucket i).entryKind key <;> simp only
-      · exact access_local ha
-      · exact access_local ha
+      · exact (access_local ha : t1.localKey = t.localKey)
+      · exact (access_local ha : t1.localKey = t.localKey)
       · generalize (t1.bucket i).remove key = res
         obtain ⟨b', r⟩ := res
         cases r with
-        | none => exact access_local ha
-        | some x => obtain ⟨node, s, p⟩ := x; exact access_local ha
+        | none => exact (access_local ha : t1.localKey = t.localKey)
+        | some x => obtain ⟨node, s, p⟩ := x; exact (access_local ha : t1.localKey = t.localKey)
       · unfold Bucket.removePending
-        cases (t1.bucket i).pending <;> exact access_local ha
+        cases (t1.bucket i).pending <;> exact (access_local ha : t1.localKey = t.localKey)
   | lookup key =>
     cases ha : t.access key with
     | none => simp only [Table.step, ha]; rfl
-    | some it1 => obtain ⟨i, t1⟩ := it1; simp only [Table.step, ha]; exact access_local ha
+    | some it1 => obtain ⟨i, t1⟩ := it1; simp only [Table.step, ha]; exact (access_local ha : t1.localKey = t.localKey)
   | bucketInfo key =>
     cases ha : t.access key with
     | none => simp only [Table.step, ha]; rfl
-    | some it1 => obtain ⟨i, t1⟩ := it1; simp only [Table.step, ha]; exact access_local ha
-  | iter => simp only [Table.step]; exact iterFrom_local _ _ _
-  | advance n => rfl
+    | some it1 => obtain ⟨i, t1⟩ := it1; simp only [Table.step, ha]; exact (access_local ha : t1.localKey = t.localKey)
+  | iter =>
+    simp only [Table.step, bump_local]
+    exact iterFrom_local _ _ _
+  | advance n => simp only [Table.step, bump_local]
 
 theorem run_local (ops : List Op) : ∀ t : Table, (t.run ops).localKey = t.localKey := by
   induction ops with
